@@ -442,6 +442,19 @@ func (e *Engine) specBuiltin(env *Env, name string, ex *SExpr) (Val, bool) {
 			env.st.elemsDone = nd
 		}
 		return Val{S: fmt.Sprintf("(%s %s %s %s)", fn, rn, off, n.S), T: &ghostMapType{key: slt.Elem(), elem: tBool}}, true
+	case "allocated":
+		// allocated(x): the reference (or the backing array of the slice) x lies below the current allocation frontier;
+		// true of every reference a program can hold, useful as an explicit loop invariant for values kept in fields
+		x := arg(0)
+		ref := x.S
+		if _, isSlice := x.T.Underlying().(*types.Slice); isSlice {
+			ref = slRef(x.S)
+		}
+		return Val{S: fmt.Sprintf("(<= %s %s)", ref, env.heap("$alloc", "Int")), T: tBool}, true
+	case "sameArray":
+		// sameArray(a, b): two slices share their backing array
+		a, b := arg(0), arg(1)
+		return Val{S: eq(slRef(a.S), slRef(b.S)), T: tBool}, true
 	case "same":
 		// same(a, b): two slices have the same header (backing array, offset, length)
 		a, b := arg(0), arg(1)
